@@ -27,6 +27,9 @@ pub enum Pure {
     Ttl(WTtl),
     TtlString(String),
     Opts(ROpts),
+    /// the same options with a heartbeat interval of exactly 0 ms (`follow=0` on the wire),
+    /// a value the harness's ROpts cannot spell
+    OptsHeartbeatZero(ROpts),
     BadOpts(String),
     FrameJson {
         spec: FrameSpec,
@@ -186,6 +189,7 @@ pub fn pure_strategy() -> BoxedStrategy<Pure> {
         3 => ttl_value().prop_map(Pure::Ttl),
         3 => ttl_string().prop_map(Pure::TtlString),
         4 => ropts().prop_map(Pure::Opts),
+        1 => ropts().prop_map(Pure::OptsHeartbeatZero),
         2 => bad_opts().prop_map(Pure::BadOpts),
         4 => (frame_spec(), 0u8..6, any::<bool>()).prop_map(|(spec, hash_kind, sparse)| Pure::FrameJson { spec, hash_kind, sparse }),
     ]
@@ -323,6 +327,24 @@ pub fn check_pure(case: &Pure) -> Result<CaseInfo, Fail> {
             info.nontrivial = set >= 3;
             info.shape = hash64(format!("o{:?}{}{}{}{}", o.follow.map(|x| x.min(2)), o.tail, o.last_id.is_some(), o.limit.is_some(), o.ctx.is_some()).as_bytes())
                 ^ hash64(q.as_bytes());
+        }
+        Pure::OptsHeartbeatZero(o) => {
+            let mut x = o.to_xs();
+            x.follow = FollowOption::WithHeartbeat(Duration::ZERO);
+            let q = x.to_query_string();
+            let back = ReadOptions::from_query(if q.is_empty() { None } else { Some(&q) });
+            match &back {
+                Ok(b) if *b == x => {}
+                other => {
+                    return Err(f(
+                        Class::Field,
+                        format!("ReadOptions {x:?} -> query {q:?} -> parsed back as {:?}", other.as_ref().map_err(|e| e.to_string())),
+                    ))
+                }
+            }
+            info.labels.push("opts-roundtrip-heartbeat-0".into());
+            info.nontrivial = true;
+            info.shape = hash64(q.as_bytes());
         }
         Pure::BadOpts(q) => {
             if let Ok(o) = ReadOptions::from_query(Some(q)) {
